@@ -338,13 +338,13 @@ func (b *Builder) buildTransitions(tableIdx int, closure []closureEntry) error {
 				class := b.nfa.ByteClasses().Get(byte(by))
 				// Check for conflict
 				if existing, ok := byteTransitions[class]; ok {
-					if existing.targetNFA != next {
+					// Two ways to consume this byte are one transition only if they
+					// agree on the captures as well: ([ab][ab]*)+ reaches the same
+					// target through the inner loop and through a new iteration of
+					// the group, and merging the slot masks reported the last byte
+					// as the group ([0 2 1 2] for "ab").
+					if existing.targetNFA != next || existing.slots != entry.slots {
 						return ErrNotOnePass
-					}
-					// Merge source slots (multiple paths to same transition)
-					byteTransitions[class] = transInfo{
-						targetNFA: next,
-						slots:     existing.slots | entry.slots,
 					}
 				} else {
 					byteTransitions[class] = transInfo{
@@ -361,12 +361,8 @@ func (b *Builder) buildTransitions(tableIdx int, closure []closureEntry) error {
 					class := b.nfa.ByteClasses().Get(byte(by))
 					// Check for conflict
 					if existing, ok := byteTransitions[class]; ok {
-						if existing.targetNFA != trans.Next {
+						if existing.targetNFA != trans.Next || existing.slots != entry.slots {
 							return ErrNotOnePass
-						}
-						byteTransitions[class] = transInfo{
-							targetNFA: trans.Next,
-							slots:     existing.slots | entry.slots,
 						}
 					} else {
 						byteTransitions[class] = transInfo{
